@@ -1,3 +1,4 @@
+import Agd.Tie.TrC06
 import Agd.Lemmas.Buffers
 import Agd.Tie.C06
 /-!
@@ -296,3 +297,7 @@ example :
 #print axioms resp_prefixed_own_bytes
 
 end Agd.Buffers
+#print axioms Agd.Tie.TrC06.translation_complete
+#print axioms Agd.Tie.TrC06.quic_decodes_own_bytes
+#print axioms Agd.Tie.TrC06.upstream_decodes_read_bytes
+#print axioms Agd.Tie.TrC06.tcp_buffer_sized_by_prefix
